@@ -183,6 +183,20 @@ def c11(ck, F, tier):
     guarded(ck, pn.pre_rule, F)
 
 
+def c25(ck, F, tier):
+    import rules_panic as pn
+    ck.explanation = (
+        "Static decision of panic-freedom of xlsx / icalc import, site by site: the PANIC inventory and zone abstract "
+        "interpretation of C11 applied to everything reachable in the call graph from load_from_xlsx_bytes, load_from_xlsx, "
+        "load_from_icalc, Model::from_workbook and Model::from_bytes (both crates; stopping at evaluation; spreadsheet "
+        "functions excluded).  Adds the idioms of the importer: unwrap of attribute(K) under has_attribute(K), unwrap after "
+        "an is_err()/is_none() early return, Vec::push / vec![..; n] / vec![a, b] lengths, constant-range contains(), "
+        "constant slices.  Not decided: the third-party zip / XML / bitcode decoders (their panics and resource use), "
+        "termination and memory bounds ('runs without bound'), stack depth on deeply nested XML.")
+    ck.rule("PANIC", "every panic site reachable from the import entry points is discharged, assumed with a reason, or reported", floor=130)
+    guarded(ck, pn.panic_rule, F, "PANIC", pn.C25_ENTRIES, pn.C25_STOPS, pn.C25_EXCEPTIONS)
+
+
 def c10(ck, F, tier):
     import rules_pcfg as rp
     ck.explanation = (
@@ -517,7 +531,7 @@ def c24(ck, F, tier):
     guarded(ck, rn.error_tables, F, load_tables(F))
 
 
-PROPS = {"C11": c11, "C08": c08, "C24": c24, "C07": c07, "C06": c06, "C18": c18, "C32": c32, "C30": c30, "C27": c27, "C31": c31, "C33": c33, "C12": c12, "C13": c13, "C14": c14, "C15": c15, "C16": c16, "C09": c09, "C22": c22, "C34": c34, "C21": c21, "C05": c05, "C28": c28, "C10": c10, "C29": c29, "C17": c17, "C01": c01, "C02": c02, "C03": c03, "C04": c04, "C23": c23, "C26": c26}
+PROPS = {"C11": c11, "C25": c25, "C08": c08, "C24": c24, "C07": c07, "C06": c06, "C18": c18, "C32": c32, "C30": c30, "C27": c27, "C31": c31, "C33": c33, "C12": c12, "C13": c13, "C14": c14, "C15": c15, "C16": c16, "C09": c09, "C22": c22, "C34": c34, "C21": c21, "C05": c05, "C28": c28, "C10": c10, "C29": c29, "C17": c17, "C01": c01, "C02": c02, "C03": c03, "C04": c04, "C23": c23, "C26": c26}
 
 
 def run(pid, tier):
